@@ -35,7 +35,7 @@ from spyne.error import ValidationError
 from spyne.error import ResourceNotFoundError
 
 from spyne.model import ByteArray, File, Fault, ComplexModelBase, Array, Any, \
-    AnyDict, Uuid, Unicode
+    AnyDict, Uuid, Unicode, Boolean, Integer, Double
 
 from spyne.protocol.dictdoc import DictDocument
 
@@ -205,6 +205,17 @@ class HierDictDocument(DictDocument):
                     retval = self._doc_to_object(ctx, cls, inst, validator)
 
             else:
+                # a map, a list or a boolean is never the source of a simple
+                # value (except for lists of byte chunks, and for booleans
+                # where a number is accepted). letting them through makes the
+                # string handlers below fail in arbitrary ways.
+                if isinstance(inst, dict) \
+                        or (isinstance(inst, (list, tuple))
+                                            and not issubclass(cls, ByteArray)) \
+                        or (isinstance(inst, bool) and not
+                                   issubclass(cls, (Boolean, Integer, Double))):
+                    raise ValidationError([key, inst])
+
                 if cls_attrs.empty_is_none and inst in (u'', b''):
                     inst = None
 
@@ -355,6 +366,13 @@ class HierDictDocument(DictDocument):
                 subinst = getattr(inst, k, None)
                 if subinst is None:
                     subinst = []
+
+                if v is None:
+                    # same as not there
+                    continue
+
+                if not isinstance(v, (list, tuple)):
+                    raise ValidationError([k, v])
 
                 for a in v:
                     subinst.append(
